@@ -35,6 +35,7 @@ TableMatches(t) ==
              /\ \A c \in 1..NCols : /\ ng[g].cols[c].defs = done[g][c].defs
                                     /\ ng[g].cols[c].vals = done[g][c].vals
 
+NonEmptyRgs(f) == SelectSeq(f.rgs, LAMBDA rg : rg.numRows > 0)
 \* ---- C05: the file as judged by the reference reader; record of named verdicts
 FileChecks(bs) ==
     LET f == ParseFile(bs)
@@ -44,8 +45,18 @@ FileChecks(bs) ==
              valuesExact |-> ValuesExact(f), offsets |-> OffsetsOk(f), paths |-> PathsOk(f),
              schema |-> SchemaMatches(f.leaves), rows |-> f.numRows = TotalRows,
              table |-> TableMatches(TableOf(f))]
+\* GZIP / ZSTD page bodies are opaque to the specification: everything that does not need the decoded
+\* body is still judged (page headers, sizes, offsets, checksums over the stored bytes, counts, schema)
+FileChecksLayout(bs) ==
+    LET f == ParseLayout(bs)
+    IN IF ~f.ok THEN [parse |-> FALSE]
+       ELSE [parse |-> TRUE, tiling |-> Tiling(f), pageChain |-> PageChain(f), counts |-> CountsAddUp(f),
+             tags |-> TagsConsistent(f), crc |-> CrcOk(f), sizes |-> SizesOk(f), rgSizes |-> RowGroupSizesOk(f),
+             offsets |-> OffsetsOk(f), paths |-> PathsOk(f),
+             schema |-> SchemaMatches(f.leaves), rows |-> f.numRows = TotalRows,
+             groups |-> [g \in 1..Len(NonEmptyRgs(f)) |-> NonEmptyRgs(f)[g].numRows] = [g \in 1..Len(done) |-> Rows(done[g][1])]]
 Failed(chk) == {k \in DOMAIN chk : ~chk[k]}
-ParseWhy(bs) == LET f == ParseFile(bs) IN IF f.ok THEN "" ELSE f.why
+ParseWhy(bs, layout) == LET f == IF layout THEN ParseLayout(bs) ELSE ParseFile(bs) IN IF f.ok THEN "" ELSE f.why
 
 \* ---- the verdict on one event: set of names of violated conditions (empty = allowed step)
 Verdict ==
@@ -59,7 +70,7 @@ Verdict ==
       [] Ev.e = "Close" -> IF Ev.st # 0 \/ wst = "failed" THEN {} ELSE IF CanClose THEN {} ELSE {"close-not-enabled"}
       [] Ev.e = "File" ->
             IF wst # "closed" THEN {}                              \* no promise about the file
-            ELSE LET chk == FileChecks(Ev.bytes) IN {"file:" \o k : k \in Failed(chk)}
+            ELSE LET chk == IF Ev.layout THEN FileChecksLayout(Ev.bytes) ELSE FileChecks(Ev.bytes) IN {"file:" \o k : k \in Failed(chk)}
       [] Ev.e = "SameBytes" ->                                     \* determinism: second write of the same history
             IF wst # "closed" \/ Ev.same THEN {} ELSE {"file:nondeterministic"}
       [] Ev.e = "Open" ->
@@ -106,7 +117,7 @@ TStep == /\ l <= Len(Tr) /\ Ev.e # "Reset" /\ ~skip
                               /\ stats' = [stats EXCEPT !.events = @ + 1,
                                                         !.failed = IF Has("st") /\ Ev.st # 0 THEN @ + 1 ELSE @]
                ELSE /\ bad' = Append(bad, [l |-> l, id |-> Ev.id, e |-> Ev.e, why |-> v,
-                                            detail |-> IF Ev.e = "File" THEN ParseWhy(Ev.bytes) ELSE ""])
+                                            detail |-> IF Ev.e = "File" THEN ParseWhy(Ev.bytes, Ev.layout) ELSE ""])
                     /\ skip' = TRUE /\ UNCHANGED <<wst, schema, cur, done, stats>>
          /\ l' = l + 1
 
